@@ -352,6 +352,7 @@ namespace sim
       g.also.clear ();
       R ().reset ();
       L ().reset ();
+      CS () = construct_stats ();
       e.build_world (idbits);
       int bad = -1;
       for (std::size_t i = 0; i < hist.size (); ++i)
@@ -578,6 +579,7 @@ namespace sim
         g.violated = false;
         R ().reset ();
         L ().reset ();
+        CS () = construct_stats ();
         R ().counters_only = true;
         e.build_world (r.below (16));
         const unsigned t    = r.below (NSLOTS);
